@@ -143,4 +143,942 @@ theorem addDword_canon (W a b : Nat) (ha : a < 2 ^ (2 * W)) (hb : b < 2 ^ (2 * W
     · exact Nat.one_lt_two_pow (by
         intro hW; subst hW; simp at ha hb; subst ha; subst hb; simp at h)
 
+
+-- ------------------------------------------------------------------ small helpers
+
+@[simp] theorem TRepr.value_small (W d : Nat) : (TRepr.small d).value W = d := rfl
+@[simp] theorem TRepr.value_large (W : Nat) (ws : List Nat) : (TRepr.large ws).value W = val W ws := rfl
+
+theorem exists_cons_cons {l : List Nat} (h : 2 ≤ l.length) : ∃ a b t, l = a :: b :: t := by
+  match l, h with
+  | [], h => simp at h
+  | [_], h => simp at h
+  | a :: b :: t, _ => exact ⟨a, b, t, rfl⟩
+
+theorem val_dword (W d : Nat) : val W [d % 2 ^ W, d / 2 ^ W] = d := by
+  simp only [val_cons, val_nil, Nat.mul_zero, Nat.add_zero]
+  exact Nat.mod_add_div d (2 ^ W)
+
+theorem isWords_dword (W d : Nat) (hd : d < 2 ^ (2 * W)) : IsWords W [d % 2 ^ W, d / 2 ^ W] := by
+  have hp : 0 < 2 ^ W := Nat.two_pow_pos W
+  refine IsWords.cons (Nat.mod_lt _ hp) (IsWords.cons ?_ (IsWords.nil W))
+  rw [Nat.div_lt_iff_lt_mul hp, ← two_pow_two_mul]; exact hd
+
+theorem isWords_one (W : Nat) (hW : 1 ≤ W) : IsWords W [1] :=
+  IsWords.cons (Nat.one_lt_two_pow (by omega)) (IsWords.nil W)
+
+/-- a non-empty word list whose top word is non-zero is at least `B^(len-1)` -/
+theorem val_ge_of_getLast (W : Nat) (ws : List Nat) (hne : ws ≠ []) (hl : ws.getLast? ≠ some 0) :
+    2 ^ (W * (ws.length - 1)) ≤ val W ws := by
+  induction ws with
+  | nil => exact absurd rfl hne
+  | cons w ws ih =>
+    cases ws with
+    | nil =>
+      have : w ≠ 0 := by simpa using hl
+      simp only [List.length_cons, List.length_nil, val_cons, val_nil]
+      simp; omega
+    | cons x xs =>
+      have hl' : (x :: xs).getLast? ≠ some 0 := by
+        rwa [List.getLast?_cons_cons] at hl
+      have h := ih (by simp) hl'
+      simp only [List.length_cons, Nat.add_sub_cancel] at h ⊢
+      rw [pow_mul_succ, val_cons]
+      calc 2 ^ W * 2 ^ (W * xs.length) ≤ 2 ^ W * val W (x :: xs) := Nat.mul_le_mul_left _ h
+        _ ≤ w + 2 ^ W * val W (x :: xs) := Nat.le_add_left _ _
+
+theorem TRepr.Canon.large_ge {W : Nat} {ws : List Nat} (h : (TRepr.large ws).Canon W) :
+    2 ^ (2 * W) ≤ val W ws := by
+  obtain ⟨h3, _, hl⟩ := h
+  have hne : ws ≠ [] := by intro e; subst e; simp at h3
+  refine Nat.le_trans (Nat.pow_le_pow_right (by omega) ?_) (val_ge_of_getLast W ws hne hl)
+  rw [Nat.mul_comm 2 W]; exact Nat.mul_le_mul_left _ (by omega)
+
+theorem TRepr.Canon.small_lt {W d : Nat} (h : (TRepr.small d).Canon W) : d < 2 ^ (2 * W) := h
+
+theorem TRepr.Canon.large_words {W : Nat} {ws : List Nat} (h : (TRepr.large ws).Canon W) :
+    IsWords W ws := h.2.1
+
+theorem TRepr.Canon.large_len {W : Nat} {ws : List Nat} (h : (TRepr.large ws).Canon W) :
+    3 ≤ ws.length := h.1
+
+-- ------------------------------------------------------------------ add_dword_in_place / add_large_dword
+
+theorem addDwordInPlace_eq (W w0 w1 : Nat) (hi : List Nat) (d : Nat) :
+    addDwordInPlace W (w0 :: w1 :: hi) d
+      = addInPlace W (w0 :: w1 :: hi) [d % 2 ^ W, d / 2 ^ W] := by
+  simp [addDwordInPlace, addInPlace, addSameLen]
+
+theorem addDwordInPlace_spec (W : Nat) (ws : List Nat) (d : Nat)
+    (hw : IsWords W ws) (hlen : 2 ≤ ws.length) (hd : d < 2 ^ (2 * W)) :
+    let r := addDwordInPlace W ws d
+    val W r.1 + 2 ^ (W * ws.length) * r.2 = val W ws + d ∧
+    r.1.length = ws.length ∧ IsWords W r.1 ∧ r.2 ≤ 1 := by
+  obtain ⟨w0, w1, hi, rfl⟩ := exists_cons_cons hlen
+  have hs := addInPlace_spec W (w0 :: w1 :: hi) [d % 2 ^ W, d / 2 ^ W] hw (isWords_dword W d hd)
+    (by simp)
+  rw [val_dword] at hs
+  rw [addDwordInPlace_eq]
+  exact hs
+
+theorem addLargeDword_value (W : Nat) (buf : List Nat) (d : Nat)
+    (hb : IsWords W buf) (hlen : 2 ≤ buf.length) (hd : d < 2 ^ (2 * W)) :
+    (addLargeDword W buf d).value W = val W buf + d := by
+  have hs := addDwordInPlace_spec W buf d hb hlen hd
+  unfold addLargeDword
+  generalize addDwordInPlace W buf d = res at hs
+  obtain ⟨r, c⟩ := res
+  obtain ⟨s1, s2, s3, s4⟩ := hs
+  simp only at s1 s2 s3 s4 ⊢
+  rw [fromBuffer_value]
+  by_cases hc : c = 0
+  · subst hc
+    simp only [if_true]
+    simp only [Nat.mul_zero, Nat.add_zero] at s1
+    exact s1
+  · have : c = 1 := by omega
+    subst this
+    simp only [hc, if_false, val_append, val_cons, val_nil, s2, Nat.mul_zero, Nat.add_zero]
+    exact s1
+
+theorem addLargeDword_canon (W : Nat) (hW : 1 ≤ W) (buf : List Nat) (d : Nat)
+    (hb : IsWords W buf) (hlen : 2 ≤ buf.length) (hd : d < 2 ^ (2 * W)) :
+    (addLargeDword W buf d).Canon W := by
+  have hs := addDwordInPlace_spec W buf d hb hlen hd
+  unfold addLargeDword
+  generalize addDwordInPlace W buf d = res at hs
+  obtain ⟨r, c⟩ := res
+  obtain ⟨s1, s2, s3, s4⟩ := hs
+  simp only at s1 s2 s3 s4 ⊢
+  apply fromBuffer_canon
+  split
+  · exact s3
+  · exact s3.append (isWords_one W hW)
+
+-- ------------------------------------------------------------------ add_large
+
+/-- the tail that `add_large` keeps: exactly one of the two `drop`s is non-empty -/
+theorem addLarge_hi_val (W : Nat) (buffer rhs : List Nat) :
+    val W (if rhs.length > min buffer.length rhs.length then rhs.drop (min buffer.length rhs.length)
+      else buffer.drop (min buffer.length rhs.length))
+    = val W (buffer.drop (min buffer.length rhs.length))
+      + val W (rhs.drop (min buffer.length rhs.length)) := by
+  by_cases h : rhs.length > min buffer.length rhs.length
+  · have hm : min buffer.length rhs.length = buffer.length := by omega
+    rw [if_pos h, hm, List.drop_length, val_nil, Nat.zero_add]
+  · have hm : min buffer.length rhs.length = rhs.length := by omega
+    rw [if_neg h, hm, List.drop_length, val_nil, Nat.add_zero]
+
+theorem addLarge_hi_words (W : Nat) (buffer rhs : List Nat) (hb : IsWords W buffer)
+    (hr : IsWords W rhs) :
+    IsWords W (if rhs.length > min buffer.length rhs.length
+      then rhs.drop (min buffer.length rhs.length)
+      else buffer.drop (min buffer.length rhs.length)) := by
+  split
+  · exact hr.drop _
+  · exact hb.drop _
+
+theorem addLarge_spec (W : Nat) (hW : 1 ≤ W) (buffer rhs : List Nat)
+    (hb : IsWords W buffer) (hr : IsWords W rhs) :
+    (addLarge W buffer rhs).value W = val W buffer + val W rhs ∧ (addLarge W buffer rhs).Canon W := by
+  have hn1 : min buffer.length rhs.length ≤ buffer.length := Nat.min_le_left _ _
+  have hn2 : min buffer.length rhs.length ≤ rhs.length := Nat.min_le_right _ _
+  have hl1 := length_take_of_le hn1
+  have hl2 := length_take_of_le hn2
+  have hs := addSameLen_spec W (buffer.take (min buffer.length rhs.length))
+    (rhs.take (min buffer.length rhs.length)) 0 (hb.take _) (hr.take _) (by rw [hl1, hl2]) (by omega)
+  have hv := addLarge_hi_val W buffer rhs
+  have hw := addLarge_hi_words W buffer rhs hb hr
+  have hsb := val_take_add_drop W buffer (min buffer.length rhs.length)
+  have hsr := val_take_add_drop W rhs (min buffer.length rhs.length)
+  simp only [addLarge]
+  generalize (if rhs.length > min buffer.length rhs.length
+      then rhs.drop (min buffer.length rhs.length)
+      else buffer.drop (min buffer.length rhs.length)) = hi at hv hw
+  have ho := addOne_spec W hi hw
+  generalize addSameLen W (buffer.take (min buffer.length rhs.length))
+    (rhs.take (min buffer.length rhs.length)) 0 = res at hs
+  obtain ⟨lo, c⟩ := res
+  generalize addOne W hi = res2 at ho
+  obtain ⟨hi', c'⟩ := res2
+  obtain ⟨s1, s2, s3, s4⟩ := hs
+  obtain ⟨o1, o2, o3, o4⟩ := ho
+  simp only [hl1, hl2] at s1 s2 s3 s4 o1 o2 o3 o4 hsb hsr ⊢
+  generalize min buffer.length rhs.length = n at *
+  by_cases hc : c = 0
+  · subst hc
+    simp only [if_true, Nat.mul_zero, Nat.add_zero] at s1 ⊢
+    refine ⟨?_, fromBuffer_canon W _ (s3.append hw)⟩
+    rw [fromBuffer_value, val_append, s2]
+    have e : 2 ^ (W * n) * val W hi
+        = 2 ^ (W * n) * (val W (buffer.drop n) + val W (rhs.drop n)) := by rw [hv]
+    linarith [e, s1, hsb, hsr]
+  · have hc1 : c = 1 := by omega
+    subst hc1
+    simp only [hc, if_false]
+    have e : 2 ^ (W * n) * (val W hi' + 2 ^ (W * hi.length) * c')
+        = 2 ^ (W * n) * (val W (buffer.drop n) + val W (rhs.drop n) + 1) := by rw [o1, hv]
+    by_cases hc' : c' = 0
+    · subst hc'
+      simp only [if_true]
+      refine ⟨?_, fromBuffer_canon W _ (s3.append o3)⟩
+      rw [fromBuffer_value, val_append, s2]
+      linarith [e, s1, hsb, hsr]
+    · have hc1' : c' = 1 := by omega
+      subst hc1'
+      simp only [hc', if_false]
+      refine ⟨?_, fromBuffer_canon W _ ((s3.append o3).append (isWords_one W hW))⟩
+      rw [fromBuffer_value, List.append_assoc, val_append, val_append, s2, o2]
+      simp only [val_cons, val_nil, Nat.mul_zero, Nat.add_zero]
+      linarith [e, s1, hsb, hsr]
+
+-- ------------------------------------------------------------------ TypedRepr + TypedRepr
+
+theorem TRepr.add_spec (W : Nat) (hW : 1 ≤ W) (a b : TRepr) (form : Nat)
+    (ha : a.Canon W) (hb : b.Canon W) :
+    (a.add W b form).value W = a.value W + b.value W ∧ (a.add W b form).Canon W := by
+  cases a with
+  | small x =>
+    cases b with
+    | small y => exact ⟨addDword_value W x y ha hb, addDword_canon W x y ha hb⟩
+    | large ws =>
+      have h2 : 2 ≤ ws.length := by have := hb.large_len; omega
+      refine ⟨?_, addLargeDword_canon W hW ws x hb.large_words h2 ha⟩
+      simp only [TRepr.add, TRepr.value_small, TRepr.value_large]
+      rw [addLargeDword_value W ws x hb.large_words h2 ha]; omega
+  | large ws =>
+    cases b with
+    | small y =>
+      have h2 : 2 ≤ ws.length := by have := ha.large_len; omega
+      exact ⟨addLargeDword_value W ws y ha.large_words h2 hb,
+        addLargeDword_canon W hW ws y ha.large_words h2 hb⟩
+    | large w1 =>
+      have h01 := addLarge_spec W hW ws w1 ha.large_words hb.large_words
+      have h10 := addLarge_spec W hW w1 ws hb.large_words ha.large_words
+      simp only [TRepr.add, TRepr.value_small, TRepr.value_large]
+      split
+      · exact ⟨by rw [h10.1]; omega, h10.2⟩
+      · split
+        · exact h01
+        · split
+          · exact h01
+          · exact ⟨by rw [h10.1]; omega, h10.2⟩
+
+theorem TRepr.add_value (W : Nat) (hW : 1 ≤ W) (a b : TRepr) (form : Nat)
+    (ha : a.Canon W) (hb : b.Canon W) : (a.add W b form).value W = a.value W + b.value W :=
+  (TRepr.add_spec W hW a b form ha hb).1
+
+theorem TRepr.add_canon (W : Nat) (hW : 1 ≤ W) (a b : TRepr) (form : Nat)
+    (ha : a.Canon W) (hb : b.Canon W) : (a.add W b form).Canon W :=
+  (TRepr.add_spec W hW a b form ha hb).2
+
+
+-- ------------------------------------------------------------------ sub_dword_in_place / sub_large_dword
+
+theorem subDwordInPlace_eq (W w0 w1 : Nat) (hi : List Nat) (d : Nat)
+    (h0 : w0 < 2 ^ W) (h1 : w1 < 2 ^ W) (hd : d < 2 ^ (2 * W)) :
+    subDwordInPlace W (w0 :: w1 :: hi) d
+      = subInPlace W (w0 :: w1 :: hi) [d % 2 ^ W, d / 2 ^ W] := by
+  have hp : 0 < 2 ^ W := Nat.two_pow_pos W
+  have hb0 : d % 2 ^ W < 2 ^ W := Nat.mod_lt _ hp
+  have hb1 : d / 2 ^ W < 2 ^ W := by rw [Nat.div_lt_iff_lt_mul hp, ← two_pow_two_mul]; exact hd
+  simp only [subDwordInPlace]
+  generalize d % 2 ^ W = b0 at *
+  generalize d / 2 ^ W = b1 at *
+  have hq1 : (w1 + 2 ^ W - b1 - (1 - (w0 + 2 ^ W - b0) / 2 ^ W)) / 2 ^ W ≤ 1 := by
+    have hx : w1 + 2 ^ W - b1 - (1 - (w0 + 2 ^ W - b0) / 2 ^ W) < 2 * 2 ^ W := by omega
+    have := (Nat.div_lt_iff_lt_mul hp).mpr hx
+    omega
+  have hcond : ((w1 + 2 ^ W - b1 - (1 - (w0 + 2 ^ W - b0) / 2 ^ W)) / 2 ^ W = 1)
+      = (1 - (w1 + 2 ^ W - b1 - (1 - (w0 + 2 ^ W - b0) / 2 ^ W)) / 2 ^ W = 0) := by
+    apply propext
+    generalize (w1 + 2 ^ W - b1 - (1 - (w0 + 2 ^ W - b0) / 2 ^ W)) / 2 ^ W = q at hq1 ⊢
+    omega
+  simp only [hcond]
+  simp [subInPlace, subSameLen]
+
+theorem subDwordInPlace_spec (W : Nat) (ws : List Nat) (d : Nat)
+    (hw : IsWords W ws) (hlen : 2 ≤ ws.length) (hd : d < 2 ^ (2 * W)) :
+    let r := subDwordInPlace W ws d
+    val W r.1 + d = val W ws + 2 ^ (W * ws.length) * r.2 ∧
+    r.1.length = ws.length ∧ IsWords W r.1 ∧ r.2 ≤ 1 := by
+  obtain ⟨w0, w1, hi, rfl⟩ := exists_cons_cons hlen
+  have hs := subInPlace_spec W (w0 :: w1 :: hi) [d % 2 ^ W, d / 2 ^ W] hw (isWords_dword W d hd)
+    (by simp)
+  rw [val_dword] at hs
+  rw [subDwordInPlace_eq W w0 w1 hi d hw.head hw.tail.head hd]
+  exact hs
+
+/-- `sub_large_dword`: the `debug_assert!(!overflow)` holds and the result is exact and canonical -/
+theorem subLargeDword_spec (W : Nat) (lhs : List Nat) (d : Nat)
+    (hc : (TRepr.large lhs).Canon W) (hd : d < 2 ^ (2 * W)) :
+    (subDwordInPlace W lhs d).2 = 0 ∧
+    (subLargeDword W lhs d).value W + d = val W lhs ∧ (subLargeDword W lhs d).Canon W := by
+  have hw := hc.large_words
+  have hge := hc.large_ge
+  have hs := subDwordInPlace_spec W lhs d hw (by have := hc.large_len; omega) hd
+  unfold subLargeDword
+  generalize subDwordInPlace W lhs d = res at hs
+  obtain ⟨r, c⟩ := res
+  obtain ⟨s1, s2, s3, s4⟩ := hs
+  simp only at s1 s2 s3 s4 ⊢
+  have hlt := val_lt W r s3
+  rw [s2] at hlt
+  have hc0 : c = 0 := by
+    rcases (by omega : c = 0 ∨ c = 1) with h | h
+    · exact h
+    · subst h; simp only [Nat.mul_one] at s1; omega
+  subst hc0
+  refine ⟨rfl, ?_, fromBuffer_canon W r s3⟩
+  rw [fromBuffer_value]; simpa using s1
+
+-- ------------------------------------------------------------------ sub_large / sub_large_ref_val
+
+theorem val_lt_of_length_lt (W : Nat) (a b : List Nat) (ha : IsWords W a) (hne : b ≠ [])
+    (hb : b.getLast? ≠ some 0) (h : a.length < b.length) : val W a < val W b := by
+  have h1 := val_lt W a ha
+  have h2 := val_ge_of_getLast W b hne hb
+  have h3 : 2 ^ (W * a.length) ≤ 2 ^ (W * (b.length - 1)) :=
+    Nat.pow_le_pow_right (by omega) (Nat.mul_le_mul_left _ (by omega))
+  omega
+
+theorem subLarge_ok (W : Nat) (lhs rhs : List Nat) (hl : IsWords W lhs) (hr : IsWords W rhs)
+    (hlen : rhs.length ≤ lhs.length) (h : val W rhs ≤ val W lhs) :
+    ∃ r, subLarge W lhs rhs = .ok r ∧ r.value W + val W rhs = val W lhs ∧ r.Canon W := by
+  have hs := subInPlace_spec W lhs rhs hl hr hlen
+  have hb := (subInPlace_borrow_iff W lhs rhs hl hr hlen).mpr h
+  unfold subLarge
+  rw [if_neg (by omega)]
+  generalize subInPlace W lhs rhs = res at hs hb
+  obtain ⟨r, c⟩ := res
+  simp only at hs hb ⊢
+  subst hb
+  obtain ⟨s1, s2, s3, s4⟩ := hs
+  refine ⟨fromBuffer W r, by simp, ?_, fromBuffer_canon W r s3⟩
+  rw [fromBuffer_value]; simpa using s1
+
+theorem subLarge_err (W : Nat) (lhs rhs : List Nat) (hl : IsWords W lhs) (hr : IsWords W rhs)
+    (h : val W lhs < val W rhs) : subLarge W lhs rhs = .error .negativeUBig := by
+  unfold subLarge
+  by_cases hlen : lhs.length < rhs.length
+  · rw [if_pos hlen]
+  · rw [if_neg hlen]
+    have hb := subInPlace_borrow_iff W lhs rhs hl hr (by omega)
+    generalize subInPlace W lhs rhs = res at hb
+    obtain ⟨r, c⟩ := res
+    simp only at hb ⊢
+    have : c ≠ 0 := by intro hc; have := hb.mp hc; omega
+    simp [this]
+
+/-- `sub_large_ref_val` computes the same thing as `sub_large` (in the other buffer) -/
+theorem subLargeRefVal_eq (W : Nat) (lhs rhs : List Nat) :
+    subLargeRefVal W lhs rhs = subLarge W lhs rhs := by
+  unfold subLargeRefVal subLarge
+  by_cases hlen : lhs.length < rhs.length
+  · simp [hlen]
+  · have htl : (lhs.take rhs.length).length = rhs.length := length_take_of_le (by omega)
+    simp only [hlen, if_false, subInPlace]
+    rw [subSameLenSwap_eq W _ _ 0 htl]
+    generalize subSameLen W (lhs.take rhs.length) rhs 0 = res
+    obtain ⟨lo, c⟩ := res
+    simp only
+    by_cases hc : c = 0
+    · simp [hc]
+    · simp only [hc, if_false]
+
+-- ------------------------------------------------------------------ TypedRepr - TypedRepr (UBig)
+
+theorem TRepr.Canon.large_ne_nil {W : Nat} {ws : List Nat} (h : (TRepr.large ws).Canon W) :
+    ws ≠ [] := by
+  intro e; subst e; have := h.large_len; simp at this
+
+theorem TRepr.sub_ok (W : Nat) (a b : TRepr) (refVal : Bool) (ha : a.Canon W) (hb : b.Canon W)
+    (h : b.value W ≤ a.value W) :
+    ∃ r, a.sub W b refVal = .ok r ∧ r.value W + b.value W = a.value W ∧ r.Canon W := by
+  cases a with
+  | small x =>
+    cases b with
+    | small y =>
+      simp only [TRepr.value_small] at h
+      refine ⟨.small (x - y), by simp [TRepr.sub, h], ?_, ?_⟩
+      · simp only [TRepr.value_small]; omega
+      · show x - y < 2 ^ (2 * W)
+        have := ha.small_lt; omega
+    | large ws =>
+      exfalso
+      have := hb.large_ge; have := ha.small_lt
+      simp only [TRepr.value_small, TRepr.value_large] at h; omega
+  | large ws =>
+    cases b with
+    | small y =>
+      have hs := subLargeDword_spec W ws y ha hb
+      exact ⟨subLargeDword W ws y, by simp [TRepr.sub], hs.2.1, hs.2.2⟩
+    | large w1 =>
+      simp only [TRepr.value_large] at h ⊢
+      have hlen : w1.length ≤ ws.length := by
+        apply Nat.le_of_not_lt
+        intro hcon
+        have := val_lt_of_length_lt W ws w1 ha.large_words hb.large_ne_nil hb.2.2 hcon
+        omega
+      have hs := subLarge_ok W ws w1 ha.large_words hb.large_words hlen h
+      simp only [TRepr.sub, subLargeRefVal_eq]
+      cases refVal <;> simpa using hs
+
+theorem TRepr.sub_err (W : Nat) (a b : TRepr) (refVal : Bool) (ha : a.Canon W) (hb : b.Canon W)
+    (h : a.value W < b.value W) : a.sub W b refVal = .error .negativeUBig := by
+  cases a with
+  | small x =>
+    cases b with
+    | small y =>
+      simp only [TRepr.value_small] at h
+      simp only [TRepr.sub]
+      rw [if_neg (by omega)]
+    | large ws => rfl
+  | large ws =>
+    cases b with
+    | small y =>
+      exfalso
+      have := ha.large_ge; have := hb.small_lt
+      simp only [TRepr.value_small, TRepr.value_large] at h; omega
+    | large w1 =>
+      simp only [TRepr.value_large] at h
+      have hs := subLarge_err W ws w1 ha.large_words hb.large_words h
+      simp only [TRepr.sub, subLargeRefVal_eq]
+      cases refVal <;> simpa using hs
+
+
+-- ------------------------------------------------------------------ list helpers for sub_in_place_with_sign
+
+theorem take_succ_getD (l : List Nat) (n : Nat) (h : n < l.length) :
+    l.take (n + 1) = l.take n ++ [l.getD n 0] := by
+  induction l generalizing n with
+  | nil => simp at h
+  | cons x xs ih =>
+    cases n with
+    | zero => simp
+    | succ n =>
+      have h' : n < xs.length := by simpa using h
+      simp only [List.take_succ_cons, List.cons_append, List.getD_cons_succ]
+      rw [ih n h']
+
+theorem IsWords.getD {W : Nat} {l : List Nat} (h : IsWords W l) (n : Nat) : l.getD n 0 < 2 ^ W := by
+  induction l generalizing n with
+  | nil => simp [Nat.two_pow_pos]
+  | cons x xs ih =>
+    cases n with
+    | zero => simpa using h.head
+    | succ n => simpa using ih h.tail n
+
+theorem IsWords.set {W : Nat} {l : List Nat} (h : IsWords W l) (n x : Nat) (hx : x < 2 ^ W) :
+    IsWords W (l.set n x) := by
+  intro y hy
+  rcases List.mem_or_eq_of_mem_set hy with h' | h'
+  · exact h y h'
+  · rw [h']; exact hx
+
+theorem set_take_drop (l : List Nat) (n x : Nat) (h : n < l.length) :
+    (l.set n x).take n = l.take n ∧ (l.set n x).drop n = x :: l.drop (n + 1) ∧
+    l.drop n = l.getD n 0 :: l.drop (n + 1) := by
+  induction l generalizing n with
+  | nil => simp at h
+  | cons y ys ih =>
+    cases n with
+    | zero => simp
+    | succ n =>
+      have h' : n < ys.length := by simpa using h
+      have := ih n h'
+      simpa using this
+
+theorem getLast?_drop_of_lt (l : List Nat) (n : Nat) (h : n < l.length) :
+    (l.drop n).getLast? = l.getLast? := by
+  induction l generalizing n with
+  | nil => simp at h
+  | cons x xs ih =>
+    cases n with
+    | zero => simp
+    | succ n =>
+      have h' : n < xs.length := by simpa using h
+      rw [List.drop_succ_cons, ih n h']
+      cases xs with
+      | nil => simp at h'
+      | cons y ys => rw [List.getLast?_cons_cons]
+
+theorem val_drop_zero (W : Nat) (l : List Nat) (k : Nat) (h : val W l = 0) :
+    val W (l.drop k) = 0 := by
+  induction l generalizing k with
+  | nil => simp
+  | cons w ws ih =>
+    cases k with
+    | zero => simpa using h
+    | succ k =>
+      simp only [List.drop_succ_cons]
+      apply ih
+      simp only [val_cons] at h
+      have hp : 0 < 2 ^ W := Nat.two_pow_pos W
+      have h2 : 2 ^ W * val W ws = 0 := by omega
+      rcases Nat.mul_eq_zero.mp h2 with h' | h'
+      · omega
+      · exact h'
+
+theorem val_drop_trimLen (W : Nat) (ws : List Nat) : val W (ws.drop (trimLen ws)) = 0 := by
+  have h1 := val_take_add_drop W ws (trimLen ws)
+  have h2 : val W (ws.take (trimLen ws)) = val W ws := val_popZeros W ws
+  have hp : 0 < 2 ^ (W * (ws.take (trimLen ws)).length) := Nat.two_pow_pos _
+  have h3 : 2 ^ (W * (ws.take (trimLen ws)).length) * val W (ws.drop (trimLen ws)) = 0 := by omega
+  rcases Nat.mul_eq_zero.mp h3 with h' | h'
+  · omega
+  · exact h'
+
+theorem val_drop_of_trimLen_le (W : Nat) (ws : List Nat) (n : Nat) (h : trimLen ws ≤ n) :
+    val W (ws.drop n) = 0 := by
+  have e : ws.drop n = (ws.drop (trimLen ws)).drop (n - trimLen ws) := by
+    rw [List.drop_drop]; congr 1; omega
+  rw [e]; exact val_drop_zero W _ _ (val_drop_trimLen W ws)
+
+-- ------------------------------------------------------------------ sub_in_place_with_sign
+
+theorem subWithSignEq_spec (W : Nat) (n : Nat) : ∀ (lhs rhs : List Nat), IsWords W lhs →
+    IsWords W rhs → n ≤ lhs.length → n ≤ rhs.length →
+    (subWithSignEq W lhs rhs n).2.length = lhs.length ∧ IsWords W (subWithSignEq W lhs rhs n).2 ∧
+    ((subWithSignEq W lhs rhs n).1 = false →
+      val W (rhs.take n) ≤ val W (lhs.take n) ∧
+      val W (subWithSignEq W lhs rhs n).2 + val W (rhs.take n) = val W lhs) ∧
+    ((subWithSignEq W lhs rhs n).1 = true →
+      val W (lhs.take n) < val W (rhs.take n) ∧
+      val W (subWithSignEq W lhs rhs n).2 + val W (lhs.take n)
+        = val W (rhs.take n) + 2 ^ (W * n) * val W (lhs.drop n)) := by
+  induction n with
+  | zero =>
+    intro lhs rhs hl hr _ _
+    simp [subWithSignEq, hl]
+  | succ n ih =>
+    intro lhs rhs hl hr hnl hnr
+    have hnl' : n < lhs.length := by omega
+    have hnr' : n < rhs.length := by omega
+    have hP : 0 < 2 ^ (W * n) := Nat.two_pow_pos _
+    have hl_n : (lhs.take n).length = n := length_take_of_le (by omega)
+    have hr_n : (rhs.take n).length = n := length_take_of_le (by omega)
+    have hl_n1 : (lhs.take (n + 1)).length = n + 1 := length_take_of_le hnl
+    have hr_n1 : (rhs.take (n + 1)).length = n + 1 := length_take_of_le hnr
+    have hvl : val W (lhs.take (n + 1)) = val W (lhs.take n) + 2 ^ (W * n) * lhs.getD n 0 := by
+      rw [take_succ_getD lhs n hnl', val_append, hl_n]
+      simp
+    have hvr : val W (rhs.take (n + 1)) = val W (rhs.take n) + 2 ^ (W * n) * rhs.getD n 0 := by
+      rw [take_succ_getD rhs n hnr', val_append, hr_n]
+      simp
+    have hLn := val_lt W (lhs.take n) (hl.take n)
+    rw [hl_n] at hLn
+    have hRn := val_lt W (rhs.take n) (hr.take n)
+    rw [hr_n] at hRn
+    have hsplit := val_take_add_drop W lhs (n + 1)
+    rw [hl_n1] at hsplit
+    have hpow := pow_mul_succ W n
+    have ha := hl.getD n
+    have hb := hr.getD n
+    obtain ⟨hst, hsd, hld⟩ := set_take_drop lhs n 0 hnl'
+    have hsetv := val_take_add_drop W (lhs.set n 0) n
+    rw [hst, hsd, hl_n] at hsetv
+    have hlhsv := val_take_add_drop W lhs n
+    rw [hld, hl_n] at hlhsv
+    simp only [val_cons] at hsetv hlhsv
+    have hsetd : val W ((lhs.set n 0).drop n) = 2 ^ W * val W (lhs.drop (n + 1)) := by
+      rw [hsd]; simp
+    have hsetw : IsWords W (lhs.set n 0) := hl.set n 0 (Nat.two_pow_pos W)
+    have hih := ih (lhs.set n 0) rhs hsetw hr (by rw [List.length_set]; omega) (by omega)
+    rw [hst, hsetd, List.length_set] at hih
+    simp only [subWithSignEq]
+    generalize lhs.getD n 0 = a at *
+    generalize rhs.getD n 0 = b at *
+    by_cases hab : a > b
+    · simp only [hab, if_true]
+      have hs := subSameLen_spec W (lhs.take (n + 1)) (rhs.take (n + 1)) 0 (hl.take _) (hr.take _)
+        (by rw [hl_n1, hr_n1]) (by omega)
+      generalize subSameLen W (lhs.take (n + 1)) (rhs.take (n + 1)) 0 = res at hs
+      obtain ⟨lo, c⟩ := res
+      obtain ⟨s1, s2, s3, s4⟩ := hs
+      simp only [hl_n1] at s1 s2 ⊢
+      have hlo := val_lt W lo s3
+      rw [s2] at hlo
+      have h1 := Nat.mul_le_mul_left (2 ^ (W * n)) (show b + 1 ≤ a from hab)
+      rw [Nat.mul_add, Nat.mul_one] at h1
+      have hle : val W (rhs.take (n + 1)) ≤ val W (lhs.take (n + 1)) := by omega
+      have hc0 : c = 0 := by
+        rcases (by omega : c = 0 ∨ c = 1) with h | h
+        · exact h
+        · subst h; simp only [Nat.mul_one] at s1; omega
+      subst hc0
+      simp only [Nat.mul_zero, Nat.add_zero] at s1
+      refine ⟨?_, s3.append (hl.drop _), ?_, by simp⟩
+      · rw [List.length_append, s2, List.length_drop]; omega
+      · intro _
+        refine ⟨hle, ?_⟩
+        rw [val_append, s2]; omega
+    · by_cases hba : a < b
+      · simp only [hab, hba, if_false, if_true]
+        rw [subSameLenSwap_eq W _ _ 0 (by rw [hl_n1, hr_n1])]
+        have hs := subSameLen_spec W (rhs.take (n + 1)) (lhs.take (n + 1)) 0 (hr.take _) (hl.take _)
+          (by rw [hl_n1, hr_n1]) (by omega)
+        generalize subSameLen W (rhs.take (n + 1)) (lhs.take (n + 1)) 0 = res at hs
+        obtain ⟨lo, c⟩ := res
+        obtain ⟨s1, s2, s3, s4⟩ := hs
+        simp only [hr_n1] at s1 s2 ⊢
+        have hlo := val_lt W lo s3
+        rw [s2] at hlo
+        have h1 := Nat.mul_le_mul_left (2 ^ (W * n)) (show a + 1 ≤ b from hba)
+        rw [Nat.mul_add, Nat.mul_one] at h1
+        have hlt : val W (lhs.take (n + 1)) < val W (rhs.take (n + 1)) := by omega
+        have hc0 : c = 0 := by
+          rcases (by omega : c = 0 ∨ c = 1) with h | h
+          · exact h
+          · subst h; simp only [Nat.mul_one] at s1; omega
+        subst hc0
+        simp only [Nat.mul_zero, Nat.add_zero] at s1
+        refine ⟨?_, s3.append (hl.drop _), by simp, ?_⟩
+        · rw [List.length_append, s2, List.length_drop]; omega
+        · intro _
+          refine ⟨hlt, ?_⟩
+          rw [val_append, s2]; omega
+      · have heq : a = b := by omega
+        subst heq
+        simp only [hab, hba, if_false]
+        generalize subWithSignEq W (lhs.set n 0) rhs n = res at hih
+        obtain ⟨neg, r⟩ := res
+        obtain ⟨i1, i2, i3, i4⟩ := hih
+        simp only at i1 i2 i3 i4 ⊢
+        refine ⟨i1, i2, ?_, ?_⟩
+        · intro hneg
+          obtain ⟨j1, j2⟩ := i3 hneg
+          exact ⟨by omega, by linarith⟩
+        · intro hneg
+          obtain ⟨j1, j2⟩ := i4 hneg
+          refine ⟨by omega, ?_⟩
+          rw [hpow]; linarith
+
+/-- `sub_in_place_with_sign`: same length, still words (equal top words are zeroed, not dropped),
+    magnitude of the difference, and the sign is negative exactly when `lhs < rhs` -/
+theorem subInPlaceWithSign_spec (W : Nat) (lhs rhs : List Nat) (hl : IsWords W lhs)
+    (hr : IsWords W rhs) (hlen : rhs.length ≤ lhs.length) :
+    (subInPlaceWithSign W lhs rhs).2.length = lhs.length ∧
+    IsWords W (subInPlaceWithSign W lhs rhs).2 ∧
+    ((subInPlaceWithSign W lhs rhs).1 = false →
+      val W (subInPlaceWithSign W lhs rhs).2 + val W rhs = val W lhs) ∧
+    ((subInPlaceWithSign W lhs rhs).1 = true →
+      val W (subInPlaceWithSign W lhs rhs).2 + val W lhs = val W rhs ∧ val W lhs < val W rhs) := by
+  have hll := trimLen_le lhs
+  have hrl := trimLen_le rhs
+  have hvl : val W (lhs.take (trimLen lhs)) = val W lhs := val_popZeros W lhs
+  have hvr : val W (rhs.take (trimLen rhs)) = val W rhs := val_popZeros W rhs
+  have hl_l : (lhs.take (trimLen lhs)).length = trimLen lhs := length_take_of_le hll
+  have hr_r : (rhs.take (trimLen rhs)).length = trimLen rhs := length_take_of_le hrl
+  simp only [subInPlaceWithSign]
+  by_cases hgt : trimLen lhs > trimLen rhs
+  · -- lhs has more significant words: plain subtraction, no borrow
+    simp only [hgt, if_true]
+    have hlen' : (rhs.take (trimLen rhs)).length ≤ (lhs.take (trimLen lhs)).length := by
+      rw [hl_l, hr_r]; omega
+    have hs := subInPlace_spec W (lhs.take (trimLen lhs)) (rhs.take (trimLen rhs)) (hl.take _)
+      (hr.take _) hlen'
+    have hne : lhs.take (trimLen lhs) ≠ [] := by
+      intro e; have := congrArg List.length e; rw [hl_l] at this; simp at this; omega
+    have hlt : val W (rhs.take (trimLen rhs)) < val W (lhs.take (trimLen lhs)) :=
+      val_lt_of_length_lt W _ _ (hr.take _) hne (popZeros_getLast lhs) (by rw [hl_l, hr_r]; omega)
+    have hb := (subInPlace_borrow_iff W _ _ (hl.take _) (hr.take _) hlen').mpr (by omega)
+    generalize subInPlace W (lhs.take (trimLen lhs)) (rhs.take (trimLen rhs)) = res at hs hb
+    obtain ⟨lo, c⟩ := res
+    simp only at hs hb ⊢
+    subst hb
+    obtain ⟨s1, s2, s3, _⟩ := hs
+    rw [hl_l] at s2
+    have hd := val_drop_trimLen W lhs
+    simp only [Nat.mul_zero, Nat.add_zero] at s1
+    refine ⟨?_, s3.append (hl.drop _), ?_, by simp⟩
+    · rw [List.length_append, s2, List.length_drop]; omega
+    · intro _
+      rw [val_append, hd]; omega
+  · by_cases hlt : trimLen lhs < trimLen rhs
+    · -- rhs has more significant words: rhs - lhs, copy the middle, borrow into it
+      simp only [hgt, hlt, if_false, if_true]
+      have hl1 : (rhs.take (trimLen lhs)).length = trimLen lhs := length_take_of_le (by omega)
+      rw [subSameLenSwap_eq W _ _ 0 (by rw [hl1, hl_l])]
+      have hs := subSameLen_spec W (rhs.take (trimLen lhs)) (lhs.take (trimLen lhs)) 0 (hr.take _)
+        (hl.take _) (by rw [hl1, hl_l]) (by omega)
+      have hmidw : IsWords W ((rhs.take (trimLen rhs)).drop (trimLen lhs)) := (hr.take _).drop _
+      have hmidlen : ((rhs.take (trimLen rhs)).drop (trimLen lhs)).length
+          = trimLen rhs - trimLen lhs := by rw [List.length_drop, hr_r]
+      have htt : (rhs.take (trimLen rhs)).take (trimLen lhs) = rhs.take (trimLen lhs) := by
+        rw [List.take_take]; congr 1; omega
+      have hsplit := val_take_add_drop W (rhs.take (trimLen rhs)) (trimLen lhs)
+      rw [htt, hl1, hvr] at hsplit
+      have hmidlast : ((rhs.take (trimLen rhs)).drop (trimLen lhs)).getLast? ≠ some 0 := by
+        rw [getLast?_drop_of_lt _ _ (by rw [hr_r]; exact hlt)]; exact popZeros_getLast rhs
+      have hmidne : (rhs.take (trimLen rhs)).drop (trimLen lhs) ≠ [] := by
+        intro e; have := congrArg List.length e; rw [hmidlen] at this; simp at this; omega
+      have hmidge := val_ge_of_getLast W _ hmidne hmidlast
+      have hmidpos : 1 ≤ val W ((rhs.take (trimLen rhs)).drop (trimLen lhs)) :=
+        Nat.le_trans Nat.one_le_two_pow hmidge
+      have ho := subOne_spec W _ hmidw
+      have hd : val W (lhs.drop (trimLen rhs)) = 0 := val_drop_of_trimLen_le W lhs _ (by omega)
+      have hLl := val_lt W _ (hl.take (trimLen lhs))
+      rw [hl_l, hvl] at hLl
+      rw [hvl] at hs
+      generalize subSameLen W (rhs.take (trimLen lhs)) (lhs.take (trimLen lhs)) 0 = res at hs
+      obtain ⟨lo, c⟩ := res
+      obtain ⟨s1, s2, s3, s4⟩ := hs
+      generalize (rhs.take (trimLen rhs)).drop (trimLen lhs) = mid at *
+      generalize subOne W mid = res2 at ho
+      obtain ⟨mid1, c1⟩ := res2
+      obtain ⟨o1, o2, o3, o4⟩ := ho
+      simp only [hl1] at s1 s2 o1 o2 o3 o4 ⊢
+      have hm1 := val_lt W mid1 o3
+      rw [o2] at hm1
+      have hPM : 2 ^ (W * trimLen lhs) ≤ 2 ^ (W * trimLen lhs) * val W mid :=
+        Nat.le_mul_of_pos_right _ hmidpos
+      by_cases hc : c = 0
+      · subst hc
+        simp only [if_true, Nat.mul_zero, Nat.add_zero] at s1 ⊢
+        refine ⟨?_, (s3.append hmidw).append (hl.drop _), by simp, ?_⟩
+        · rw [List.length_append, List.length_append, s2, hmidlen, List.length_drop]; omega
+        · intro _
+          rw [val_append, val_append, s2, hd]
+          constructor
+          · simp only [Nat.mul_zero, Nat.add_zero]; omega
+          · omega
+      · have hc1 : c = 1 := by omega
+        subst hc1
+        simp only [hc, if_false] at s1 ⊢
+        have hc10 : c1 = 0 := by
+          rcases (by omega : c1 = 0 ∨ c1 = 1) with h | h
+          · exact h
+          · subst h; simp only [Nat.mul_one] at o1; omega
+        subst hc10
+        simp only [Nat.mul_zero, Nat.add_zero, Nat.mul_one] at o1 s1
+        refine ⟨?_, (s3.append o3).append (hl.drop _), by simp, ?_⟩
+        · rw [List.length_append, List.length_append, s2, o2, hmidlen, List.length_drop]; omega
+        · intro _
+          rw [val_append, val_append, s2, hd]
+          have e : 2 ^ (W * trimLen lhs) * (val W mid1 + 1) = 2 ^ (W * trimLen lhs) * val W mid := by
+            rw [o1]
+          constructor
+          · simp only [Nat.mul_zero, Nat.add_zero]; linarith
+          · omega
+    · -- same number of significant words: compare from the top
+      have heq : trimLen lhs = trimLen rhs := by omega
+      simp only [hgt, hlt, if_false]
+      have hs := subWithSignEq_spec W (trimLen lhs) lhs rhs hl hr hll (by omega)
+      have hvr' : val W (rhs.take (trimLen lhs)) = val W rhs := by rw [heq]; exact hvr
+      have hd := val_drop_trimLen W lhs
+      rw [hvl, hvr', hd] at hs
+      generalize subWithSignEq W lhs rhs (trimLen lhs) = res at hs
+      obtain ⟨neg, r⟩ := res
+      obtain ⟨s1, s2, s3, s4⟩ := hs
+      simp only at s1 s2 s3 s4 ⊢
+      refine ⟨s1, s2, fun h => (s3 h).2, fun h => ⟨?_, (s4 h).1⟩⟩
+      have := (s4 h).2
+      simpa using this
+
+
+-- ------------------------------------------------------------------ natWords / ofNat
+
+theorem natWords_zero (W : Nat) : natWords W 0 = [] := by
+  rw [natWords]; simp
+
+theorem natWords_spec (W : Nat) (hW : 1 ≤ W) (n : Nat) :
+    val W (natWords W n) = n ∧ IsWords W (natWords W n) ∧ (natWords W n).getLast? ≠ some 0 := by
+  induction n using Nat.strongRecOn with
+  | _ n ih =>
+    by_cases h0 : n = 0
+    · subst h0; rw [natWords_zero]; simp [IsWords.nil]
+    · have hW0 : ¬ W = 0 := by omega
+      have hp : 0 < 2 ^ W := Nat.two_pow_pos W
+      have hlt : n / 2 ^ W < n :=
+        Nat.div_lt_self (Nat.pos_of_ne_zero h0) (Nat.one_lt_two_pow hW0)
+      have hunf : natWords W n = n % 2 ^ W :: natWords W (n / 2 ^ W) := by
+        rw [natWords]; simp [h0, hW0]
+      obtain ⟨i1, i2, i3⟩ := ih (n / 2 ^ W) hlt
+      rw [hunf]
+      refine ⟨?_, IsWords.cons (Nat.mod_lt _ hp) i2, ?_⟩
+      · rw [val_cons, i1]; exact Nat.mod_add_div n (2 ^ W)
+      · by_cases hq : n / 2 ^ W = 0
+        · rw [hq, natWords_zero]
+          have hm : n % 2 ^ W ≠ 0 := by
+            have := Nat.mod_add_div n (2 ^ W); rw [hq] at this; omega
+          simpa using hm
+        · have hne : natWords W (n / 2 ^ W) ≠ [] := by
+            have hlt2 : n / 2 ^ W / 2 ^ W < n / 2 ^ W :=
+              Nat.div_lt_self (Nat.pos_of_ne_zero hq) (Nat.one_lt_two_pow hW0)
+            rw [natWords]; simp [hq, hW0]
+          rw [List.getLast?_cons_of_ne_nil hne]; exact i3
+
+theorem ofNat_value (W : Nat) (hW : 1 ≤ W) (n : Nat) : (ofNat W n).value W = n := by
+  unfold ofNat
+  split
+  · rfl
+  · exact (natWords_spec W hW n).1
+
+theorem ofNat_canon (W : Nat) (hW : 1 ≤ W) (n : Nat) : (ofNat W n).Canon W := by
+  unfold ofNat
+  split
+  · assumption
+  · rename_i h
+    obtain ⟨h1, h2, h3⟩ := natWords_spec W hW n
+    refine ⟨?_, h2, h3⟩
+    have hlt := val_lt W _ h2
+    rw [h1] at hlt
+    apply Nat.le_of_not_lt
+    intro hlen
+    have : 2 ^ (W * (natWords W n).length) ≤ 2 ^ (2 * W) :=
+      Nat.pow_le_pow_right (by omega)
+        (by rw [Nat.mul_comm 2 W]; exact Nat.mul_le_mul_left _ (by omega))
+    omega
+
+-- ------------------------------------------------------------------ signs: with_sign / neg / of_int
+
+/-- well-formed signed value: canonical magnitude and never "negative zero" -/
+def SRepr.WF (W : Nat) (r : SRepr) : Prop := r.mag.Canon W ∧ (r.neg = true → r.mag.value W ≠ 0)
+
+theorem TRepr.isZero_iff (m : TRepr) : m.isZero = true ↔ m = .small 0 := by
+  cases m with
+  | small d =>
+    cases d with
+    | zero => simp [TRepr.isZero]
+    | succ k => simp [TRepr.isZero]
+  | large ws => simp [TRepr.isZero]
+
+theorem TRepr.value_ne_zero_of_not_isZero {W : Nat} {m : TRepr} (hc : m.Canon W)
+    (hz : ¬ m.isZero = true) : m.value W ≠ 0 := by
+  cases m with
+  | small d =>
+    intro h
+    simp only [TRepr.value_small] at h
+    subst h
+    exact hz ((TRepr.isZero_iff _).mpr rfl)
+  | large ws =>
+    have := hc.large_ge
+    have hp : 0 < 2 ^ (2 * W) := Nat.two_pow_pos _
+    simp only [TRepr.value_large]; omega
+
+theorem withSign_mag (m : TRepr) (neg : Bool) : (withSign m neg).mag = m := by
+  unfold withSign; split <;> rfl
+
+theorem withSign_value (W : Nat) (m : TRepr) (neg : Bool) :
+    (withSign m neg).value W = if neg then -(m.value W : Int) else (m.value W : Int) := by
+  unfold withSign
+  split
+  · rename_i hz
+    have hm := (TRepr.isZero_iff m).mp hz
+    subst hm
+    cases neg <;> simp [SRepr.value]
+  · cases neg <;> simp [SRepr.value]
+
+theorem withSign_wf (W : Nat) (m : TRepr) (neg : Bool) (hc : m.Canon W) :
+    (withSign m neg).WF W := by
+  unfold withSign
+  split
+  · exact ⟨hc, by simp⟩
+  · rename_i hz
+    exact ⟨hc, fun _ => TRepr.value_ne_zero_of_not_isZero hc hz⟩
+
+theorem SRepr.negate_value (W : Nat) (r : SRepr) : r.negate.value W = - r.value W := by
+  unfold SRepr.negate
+  rw [withSign_value]
+  unfold SRepr.value
+  cases r.neg <;> simp
+
+theorem SRepr.negate_wf (W : Nat) (r : SRepr) (h : r.WF W) : r.negate.WF W :=
+  withSign_wf W r.mag _ h.1
+
+theorem SRepr.ofInt_value (W : Nat) (hW : 1 ≤ W) (i : Int) : (SRepr.ofInt W i).value W = i := by
+  unfold SRepr.ofInt SRepr.value
+  simp only [ofNat_value W hW]
+  by_cases h : i < 0
+  · simp only [h, decide_true, if_true]; omega
+  · simp only [h, decide_false]; simp; omega
+
+theorem SRepr.ofInt_wf (W : Nat) (hW : 1 ≤ W) (i : Int) : (SRepr.ofInt W i).WF W := by
+  refine ⟨ofNat_canon W hW _, ?_⟩
+  intro h
+  simp only [SRepr.ofInt, decide_eq_true_eq] at h
+  simp only [SRepr.ofInt, ofNat_value W hW]
+  omega
+
+-- ------------------------------------------------------------------ sub_signed
+
+theorem subDwordSigned_spec (W : Nat) (a b : Nat) (ha : a < 2 ^ (2 * W)) (hb : b < 2 ^ (2 * W)) :
+    (subDwordSigned a b).value W = (a : Int) - b ∧ (subDwordSigned a b).WF W := by
+  unfold subDwordSigned
+  split
+  · rename_i h
+    refine ⟨?_, withSign_wf W _ _ (show a - b < 2 ^ (2 * W) by omega)⟩
+    rw [withSign_value]; simp only [TRepr.value_small]; simp; omega
+  · rename_i h
+    refine ⟨?_, withSign_wf W _ _ (show b - a < 2 ^ (2 * W) by omega)⟩
+    rw [withSign_value]; simp only [TRepr.value_small]; simp; omega
+
+theorem subLargeSigned_spec (W : Nat) (lhs rhs : List Nat) (hl : (TRepr.large lhs).Canon W)
+    (hr : (TRepr.large rhs).Canon W) :
+    (subLargeSigned W lhs rhs).value W = (val W lhs : Int) - val W rhs ∧
+    (subLargeSigned W lhs rhs).WF W := by
+  unfold subLargeSigned
+  split
+  · rename_i hlen
+    have hs := subInPlaceWithSign_spec W lhs rhs hl.large_words hr.large_words hlen
+    generalize subInPlaceWithSign W lhs rhs = res at hs
+    obtain ⟨neg, r⟩ := res
+    obtain ⟨s1, s2, s3, s4⟩ := hs
+    simp only at s1 s2 s3 s4 ⊢
+    refine ⟨?_, withSign_wf W _ _ (fromBuffer_canon W r s2)⟩
+    rw [withSign_value, fromBuffer_value]
+    cases neg with
+    | false => have := s3 rfl; simp; omega
+    | true => have := (s4 rfl).1; simp; omega
+  · rename_i hlen
+    have hlt : val W lhs < val W rhs :=
+      val_lt_of_length_lt W lhs rhs hl.large_words hr.large_ne_nil hr.2.2 (by omega)
+    obtain ⟨m, hm1, hm2, hm3⟩ := subLarge_ok W rhs lhs hr.large_words hl.large_words (by omega)
+      (by omega)
+    rw [subLargeRefVal_eq, hm1]
+    simp only
+    refine ⟨?_, withSign_wf W _ _ hm3⟩
+    rw [withSign_value]; simp; omega
+
+theorem TRepr.subSigned_spec (W : Nat) (a b : TRepr) (form : Nat) (ha : a.Canon W)
+    (hb : b.Canon W) :
+    (a.subSigned W b form).value W = (a.value W : Int) - b.value W ∧
+    (a.subSigned W b form).WF W := by
+  cases a with
+  | small x =>
+    cases b with
+    | small y => exact subDwordSigned_spec W x y ha hb
+    | large ws =>
+      have hs := subLargeDword_spec W ws x hb ha
+      simp only [TRepr.subSigned, TRepr.value_small, TRepr.value_large]
+      refine ⟨?_, SRepr.negate_wf W _ (withSign_wf W _ _ hs.2.2)⟩
+      rw [SRepr.negate_value, withSign_value]
+      have := hs.2.1
+      simp; omega
+  | large ws =>
+    cases b with
+    | small y =>
+      have hs := subLargeDword_spec W ws y ha hb
+      simp only [TRepr.subSigned, TRepr.value_small, TRepr.value_large]
+      refine ⟨?_, withSign_wf W _ _ hs.2.2⟩
+      rw [withSign_value]
+      have := hs.2.1
+      simp; omega
+    | large w1 =>
+      have h01 := subLargeSigned_spec W ws w1 ha hb
+      have h10 := subLargeSigned_spec W w1 ws hb ha
+      have hn : (subLargeSigned W w1 ws).negate.value W = (val W ws : Int) - val W w1 ∧
+          (subLargeSigned W w1 ws).negate.WF W := by
+        refine ⟨?_, SRepr.negate_wf W _ h10.2⟩
+        rw [SRepr.negate_value, h10.1]; omega
+      simp only [TRepr.subSigned, TRepr.value_large]
+      split
+      · exact hn
+      · split
+        · exact h01
+        · split
+          · exact h01
+          · exact hn
+
 end Dashu.Model
